@@ -95,9 +95,12 @@ def _world_for(prop, tier):
         return template_jobs([D]) if tier == 'quick' else template_jobs([D, R, DE, REW], threads=3) + (other_schemas(prop) if prop in WORLD_PROPS else [])
     if prop not in WORLD_PROPS:
         return []
+    if prop == 'C17':
+        # events: the templates unit (which contains the world unit) under the events configurations: destroyed log through ecs_iter_destroy!
+        return template_jobs([DE]) if tier == 'quick' else template_jobs([DE, RE, DEW], threads=3) + other_schemas(prop)
     if tier == 'quick':
-        return world_jobs([DE] if prop == 'C17' else [D])
-    return world_jobs([DE, RE, DEW] if prop == 'C17' else [D, R, DE, REW], threads=3) + other_schemas(prop)
+        return world_jobs([D])
+    return world_jobs([D, R, DE, REW], threads=3) + other_schemas(prop)
 
 
 def _jobs_for(prop, tier):
@@ -171,7 +174,7 @@ def meta_for(prop):
                                     'the order in which that chain threads its booleans, the syn parsers, and the #[cfg] attributes re-emitted on closure parameters are outside these contracts (partial claim).')
         if prop == 'C15':
             m['assumptions'].append('Kani harness select_conversions_all_ids (one declared world) is a complete check of the generated Select* tables for THAT declaration only.')
-    if prop in TEMPLATE_PROPS:
+    if prop in TEMPLATE_PROPS or prop == 'C17':
         m['assumptions'] = list(A_COMMON) + [
             A_WORLD[0], A_WORLD[1],
             'R-tmpl: the ecs_find! / ecs_find_borrow! / ecs_iter! / ecs_iter_borrow! / ecs_iter_destroy! templates are instantiated for ONE schema (two archetypes over Storage2) and ONE parameter list (Entity<_>, EntityDirect<_>, &mut CompX; the *_borrow! forms with &CompX, because RefMut accessors are outside the abstraction); the user closure is an unspecified stand-in whose `requires` are the obligations on its arguments; universality over programs is not claimed.',
